@@ -7,7 +7,8 @@ references to flows / actions / events, and checks, for every cut point between 
  save/restore  (nemoguardrails/colang/v2_x/runtime/serialization.py :: state_to_json / json_to_state)
    S1  state_to_json succeeds on the reachable state, and calling it does not disturb the live state
    S2  json_to_state succeeds on that JSON
-   S3  the restored state has the same structure as the live one, and objects that are shared in the live state
+   S3  the restored state has the same structure as the live one (all of it except the two per-event queues and the
+       time stamps of the last status change), and objects that are shared in the live state
        (Action / FlowState / FlowHead / Event / FlowConfig objects reachable over several paths, e.g. `state.actions[uid]`
        and a flow variable `$act`) are still one shared object after the restore
    S4  the restored state answers every remaining event sequence of the script with the same outgoing events as the
@@ -20,6 +21,15 @@ references to flows / actions / events, and checks, for every cut point between 
        CheckValidFlowExistsAction (real action function) for every flow id, CheckForActiveEventMatchAction for the
        script's events, and the tree of flow instances that are not eligible for clean-up (status, activation count,
        parent / child relation, head positions)
+   AS  both together: idle time before every event and a save/restore after every event (clean-up and core-library
+       families in the quick tier, every family in the thorough tier)
+
+Determinism: the interpreter's clock (`datetime` in statemachine.py / flows.py) is replaced by a counter clock plus the simulated
+idle time, and `random` (tie-breaking between equally good competing heads) is seeded identically before every event.
+Families `non_json_values`, `shared_lists` and `cleanup_shared_activation` hold the programs on which the pinned tree
+violates the property (regex / comparison values, integer dict keys, set-valued action arguments, lists shared between
+variables or flows, a flow activated by two parents whose first activator is discarded); they are kept in their own records
+so that the other families are failure-free on the pinned tree.
 
 The oracle never re-implements the interpreter: both sides of every comparison are produced by the real code."""
 from pyvc.api import *
@@ -40,6 +50,8 @@ CL_S4C = ("a conversation that is saved and restored between every two events pr
           "live conversation (up to fresh identifiers)")
 CL_A1 = ("idle time longer than the clean-up age (5 s) before an event never changes the outgoing events of that and all "
          "later events")
+CL_AS = ("idle time longer than the clean-up age (5 s) before every event combined with a save/restore of the state after every "
+         "event never changes the outgoing events or the observable queries")
 CL_A2 = ("idle time longer than the clean-up age (5 s) never changes later observable queries: CheckValidFlowExistsAction, "
          "CheckForActiveEventMatchAction, and the tree of live / activated flow instances (status, activation, parent, children)")
 
@@ -90,12 +102,13 @@ flow main
   match Go()
   start VisualFormSceneAction(prompt="p") as $form
   match $form.InputUpdated() as $upd
-  send Out(v=$upd.interim_inputs, seen=$form.interim_inputs)
+  send Out(v=$upd.interim_inputs, p=$form.start_event_arguments.prompt)
+  match $form.InputUpdated() as $upd2
   match Ask()
-  send Out2(v=$form.interim_inputs, st="{$form.status}")
+  send Out2(v1=$upd.interim_inputs[0].value, v2=$upd2.interim_inputs[0].value, st="{$form.status}", same=$upd2.action.uid)
   send $form.Stop()
   match $form.Finished()
-  send Out3(v=$form.interim_inputs, st="{$form.status}", ok=$form.is_success)
+  send Out3(st="{$form.status}", ok=$form.is_success, n=len($form.context))
   match Never()
 ''', [("e", "Go", {}), ("sta", "VisualFormSceneAction", 0, {}),
       ("upd", "VisualFormSceneAction", 0, {"_suffix": "Input", "interim_inputs": [{"id": "a", "value": "1"}]}),
@@ -159,7 +172,7 @@ flow main
   send Out(name=$st.action.name, st="{$st.action.status}")
   match $st.action.Finished() as $fin
   $same = $fin.action.uid == $st.action.uid
-  send Out2(t=$fin.final_transcript, st="{$st.action.status}", t2=$st.action.final_transcript, same=$same)
+  send Out2(t=$fin.final_transcript, st0="{$st.action.status}", st="{$fin.action.status}", same=$same)
   match Later()
   send Out3(t=$fin.final_transcript, st="{$fin.action.status}", args=$fin.arguments.final_transcript)
   match Never()
@@ -187,8 +200,7 @@ flow worker $n
   $result = "done-{$n}"
   return $result
 
-flow main
-  start worker(n=1)
+flow observer
   match FlowStarted(flow_id="worker") as $started
   send Out(n=$started.flow.n, st="{$started.flow.status}")
   match FlowFinished(flow_id="worker") as $finished
@@ -196,8 +208,13 @@ flow main
   send Out2(r=$finished.flow.result, rv=$finished.return_value, same=$same, st="{$started.flow.status}")
   match Later()
   send Out3(r=$started.flow.result, st="{$finished.flow.status}")
+
+flow main
+  start observer
+  match Go()
+  start worker(n=1)
   match Never()
-''', [("e", "Noop", {}), ("e", "Work", {}), ("e", "Later", {})])
+''', [("e", "Go", {}), ("e", "Noop", {}), ("e", "Work", {}), ("e", "Later", {})])
 
     sc("send_event_with_ref", "event_refs", '''
 flow main
@@ -368,6 +385,36 @@ flow main
 ''', [("e", "Go", {}), ("e", "Ok1", {}), ("e", "Kill", {}), ("e", "Q", {})],
        [("e", "Go", {}), ("e", "Ok1", {}), ("e", "Ok2", {}), ("e", "Kill", {}), ("e", "Q", {})])
 
+    # ---------------------------------------------------------------- the standard library (core.co) on top of all that
+    sc("core_library_conversation", "core_library", '''
+import core
+
+flow greeting
+  user said "hi" or user said "hello"
+  bot say "Hello there"
+  user said something as $u
+  bot say "You said {$u.transcript}"
+
+flow fallback
+  user said something unexpected as $x
+  bot say "unexpected: {$x.transcript}"
+
+flow report
+  global $last_bot_script
+  global $bot_talking_state
+  match Report()
+  send Out(s=$last_bot_script, talking=$bot_talking_state)
+
+flow main
+  activate tracking bot talking state
+  activate greeting
+  activate fallback
+  activate report
+  match Never()
+''', [("u", "nonsense"), ("sta", "UtteranceBotAction", 0, {}), ("e", "Report", {}),
+      ("fin", "UtteranceBotAction", 0, {"final_script": "unexpected: nonsense"}), ("u", "hi"),
+      ("fin", "UtteranceBotAction", 1, {"final_script": "Hello there"}), ("u", "what"), ("e", "Report", {})])
+
     # ---------------------------------------------------------------- container values
     sc("nested_containers", "containers", '''
 flow main
@@ -401,12 +448,12 @@ flow main
   ($s.add("c"))
   ($nums.discard(2))
   send Out2(s=$s, nums=$nums, tags=$holder.tags)
-  match E3(tags={"c"})
+  match E3()
   $c = "c" in $s
   $two = 2 in $nums
   send Out3(c=$c, two=$two, t=type($holder.tags), t2=type($holder.list_of_sets[0]))
   match Never()
-''', [("e", "E1", {}), ("e", "E2", {}), ("e", "E3", {"tags": ["c", "d"]}), ("e", "Noop", {})])
+''', [("e", "E1", {}), ("e", "E2", {}), ("e", "E3", {}), ("e", "Noop", {})])
 
     sc("global_variables", "containers", '''
 flow setter
@@ -474,7 +521,7 @@ flow main
   match Never()
 ''', [("e", "Go", {}), ("sta", "VisualChoiceSceneAction", 0, {}), ("fin", "VisualChoiceSceneAction", 0, {"choice": ["b"]}), ("e", "Q", {})])
 
-    sc("action_with_set_argument", "containers", '''
+    sc("action_with_set_argument", "non_json_values", '''
 flow main
   match Go()
   start TagAction(tags={"x", "y"}, label="l") as $t
@@ -483,7 +530,7 @@ flow main
   match Never()
 ''', [("e", "Go", {}), ("fin", "TagAction", 0, {}), ("e", "Noop", {})])
 
-    sc("dict_with_integer_keys", "containers", '''
+    sc("dict_with_integer_keys", "non_json_values", '''
 flow main
   $k = {1: "one", 2: "two"}
   match E1()
@@ -491,7 +538,7 @@ flow main
   match Never()
 ''', [("e", "Noop", {}), ("e", "E1", {})])
 
-    sc("list_shared_by_two_variables", "containers", '''
+    sc("list_shared_by_two_variables", "shared_lists", '''
 flow main
   $l = [1]
   $m = $l
@@ -501,7 +548,7 @@ flow main
   match Never()
 ''', [("e", "Noop", {}), ("e", "E1", {})])
 
-    sc("list_shared_with_child_flow", "containers", '''
+    sc("list_shared_with_child_flow", "shared_lists", '''
 flow collector $p
   match Add() as $e
   ($p.append($e.v))
@@ -516,7 +563,7 @@ flow main
 ''', [("e", "Add", {"v": "x"}), ("e", "Q", {})], [("e", "Noop", {}), ("e", "Add", {"v": "x"}), ("e", "Q", {})])
 
     # ---------------------------------------------------------------- regexes and other non-JSON values
-    sc("regex_in_variable", "regex", '''
+    sc("regex_in_variable", "non_json_values", '''
 flow main
   $r = regex("^a.*z$")
   match E1()
@@ -526,7 +573,7 @@ flow main
   match Never()
 ''', [("e", "E1", {}), ("e", "Word", {"w": "abc"}), ("e", "Word", {"w": "abcz"})])
 
-    sc("regex_as_flow_parameter", "regex", '''
+    sc("regex_as_flow_parameter", "non_json_values", '''
 flow listen $pattern
   match UtteranceUserAction.Finished(final_transcript=$pattern) as $e
   send Heard(t=$e.final_transcript)
@@ -536,7 +583,7 @@ flow main
   match Never()
 ''', [("u", "bye"), ("u", "Hello there"), ("u", "hi")])
 
-    sc("comparison_expression_in_variable", "regex", '''
+    sc("comparison_expression_in_variable", "non_json_values", '''
 flow main
   $small = less_than(5)
   match E1()
@@ -668,7 +715,7 @@ flow main
 ''', [("e", "Ping", {"n": 1}), ("e", "Ping", {"n": 2}), ("e", "Q", {}), ("e", "Ping", {"n": 3})],
        [("e", "Q", {}), ("e", "Ping", {"n": 1})])
 
-    sc("cleanup_flow_activated_by_two_parents", "cleanup", '''
+    sc("cleanup_flow_activated_by_two_parents", "cleanup_shared_activation", '''
 flow handler
   match Ping()
   send Pong()
@@ -696,8 +743,14 @@ flow main
 import re as _re
 
 _UUID = _re.compile(r"[0-9a-fA-F]{8}-[0-9a-fA-F]{4}-[0-9a-fA-F]{4}-[0-9a-fA-F]{4}-[0-9a-fA-F]{12}")
+_UUID_ = _re.compile(r"[0-9a-fA-F]{8}_[0-9a-fA-F]{4}_[0-9a-fA-F]{4}_[0-9a-fA-F]{4}_[0-9a-fA-F]{12}")
 _DROP = ("uid", "event_created_at", "source_uid")
 _AGE = 6.0   # seconds of simulated idle time, > the clean-up age of 5 s
+
+
+def _no_ids(text):
+    """fresh identifiers replaced by <id> (messages stay the same from run to run)"""
+    return _UUID_.sub("<id>", _UUID.sub("<id>", text))
 
 
 def _short(x, n=1500):
@@ -764,6 +817,7 @@ class _Env:
     def __init__(self):
         import asyncio
         import contextlib
+        import random
         import datetime as dtm
         import io
         import threading
@@ -778,17 +832,24 @@ class _Env:
         self.fl, self.sm = fl, sm
         self.state_to_json, self.json_to_state = state_to_json, json_to_state
         self.io, self.contextlib, self.threading = io, contextlib, threading
+        self.random = random
+        self._random_state = random.getstate()
         self.loop = asyncio.new_event_loop()
         self.offset = dtm.timedelta(0)
         env = self
         real = dtm.datetime
 
+        t0 = real.now()
+        self.ticks = 0
+
         class IdleClock(real):
-            """the clock read by _clean_up_state and by the FlowState.status setter, plus the simulated idle time"""
+            """the clock read by _clean_up_state and by the FlowState.status setter: a deterministic clock (events arrive
+            microseconds apart, whatever the load of the machine) plus the simulated idle time"""
 
             @classmethod
             def now(cls, tz=None):
-                return real.now(tz) + env.offset
+                env.ticks += 1
+                return t0 + env.offset + dtm.timedelta(microseconds=env.ticks)
 
         self._saved = (sm.datetime, fl.datetime, threading.excepthook)
         sm.datetime = IdleClock
@@ -798,6 +859,7 @@ class _Env:
 
     def close(self):
         self.sm.datetime, self.fl.datetime, self.threading.excepthook = self._saved
+        self.random.setstate(self._random_state)
         try:
             self.loop.close()
         except Exception:
@@ -868,6 +930,8 @@ class _Run:
             self.trace.append("skipped (the action this step refers to was never started)")
             return
         try:
+            # the interpreter breaks ties between equally good competing heads with `random`: same choices in every run
+            self.env.random.seed(1000 + i)
             out, self.state = self.env.process(self.rails, self.state, ev)
             self.trace.append([dict(e) for e in out])
         except Exception as ex:
@@ -890,6 +954,10 @@ def _state_diff(env, live, restored, limit=3):
     from collections import deque
     fl = env.fl
     shared_types = (fl.Action, fl.FlowState, fl.FlowHead, fl.Event, fl.FlowConfig)
+    # not compared, because no later event can tell the difference: the two queues are re-initialised at the start of every
+    # run_to_completion, and the time stamp of the last status change is read by the clean-up only (which, by the second half
+    # of the property, never changes behaviour; save/restore combined with idle time is checked behaviourally)
+    skip_fields = {"State": ("internal_events", "outgoing_events"), "FlowState": ("status_updated",)}
     fwd, back, first = {}, {}, {}
     out = []
 
@@ -903,7 +971,8 @@ def _state_diff(env, live, restored, limit=3):
             if not (isinstance(a, functools.partial) and isinstance(b, functools.partial)):
                 out.append("%s: callback %r in the live state, %r in the restored state" % (p(path), type(a).__name__, type(b).__name__))
             return
-        if type(a) is not type(b):
+        if type(a) is not type(b) and not (isinstance(a, dict) and isinstance(b, dict)):
+            # (dict subclasses: the expression evaluator wraps dicts into its AttributeDict on every read anyway)
             # the clock subclass is an artefact of the harness
             import datetime as dtm
             if isinstance(a, dtm.datetime) and isinstance(b, dtm.datetime):
@@ -965,6 +1034,8 @@ def _state_diff(env, live, restored, limit=3):
             return
         if dataclasses.is_dataclass(a):
             for f in dataclasses.fields(a):
+                if f.name in skip_fields.get(type(a).__name__, ()):
+                    continue
                 walk(getattr(a, f.name), getattr(b, f.name), path + ("." + f.name,))
             return
         if type(a).__name__ == "RailsConfig":
@@ -1010,8 +1081,9 @@ def _queries(env, state, event_names):
             continue
         parent = state.flow_states.get(fs.parent_uid) if fs.parent_uid else None
         kids = sorted(label(state.flow_states[u]) for u in fs.child_flow_uids if u in state.flow_states and keeps(state.flow_states[u]))
+        dangling = len([u for u in fs.child_flow_uids if u not in state.flow_states])
         tree.append((label(fs), fs.status.name, int(fs.activated), label(parent) if parent is not None and keeps(parent) else None,
-                     tuple(kids), tuple(sorted(h.position for h in fs.heads.values()))))
+                     tuple(kids), "dangling child uids: %d" % dangling, tuple(sorted(h.position for h in fs.heads.values()))))
     q["flow tree"] = sorted(tree, key=repr)
     for fid, lst in state.flow_id_states.items():
         q["instances(%s)" % fid] = sorted(label(fs) for fs in lst if keeps(fs))
@@ -1030,7 +1102,7 @@ def _event_names(script):
 # =============================================================================================
 # the checks
 # =============================================================================================
-def _check_scenario(env, sc, script, si, tier, add, count):
+def _check_scenario(env, sc, script, si, tier, add, count, reported):
     name = sc["name"]
     n = len(script)
 
@@ -1039,7 +1111,9 @@ def _check_scenario(env, sc, script, si, tier, add, count):
         d.update(kw)
         return "%s | program:\n%s" % (_short(d, 700), _short(sc["src"], 750))
 
-    rails = env.rails(sc["src"])
+    if "rails" not in sc:
+        sc["rails"] = env.rails(sc["src"])
+    rails = sc["rails"]
     names = _event_names(script)
 
     # ---- reference conversation: no save/restore, no idle time
@@ -1054,7 +1128,6 @@ def _check_scenario(env, sc, script, si, tier, add, count):
     # ---- S1..S4: save/restore at every cut
     live = _Run(env, rails, script)
     forks = []
-    reported = set()
 
     def once(kind):
         if kind in reported:
@@ -1074,7 +1147,7 @@ def _check_scenario(env, sc, script, si, tier, add, count):
                 raise
             if once("S1"):
                 add(SER, "state_to_json", CL_S1, inputs(cut="after event #%d" % k),
-                    "state_to_json raised %s: %s" % (type(ex).__name__, _short(str(ex), 200)))
+                    "state_to_json raised %s: %s" % (type(ex).__name__, _short(_no_ids(str(ex)), 200)))
             continue
         count("S2", name, si, k)
         try:
@@ -1084,12 +1157,12 @@ def _check_scenario(env, sc, script, si, tier, add, count):
                 raise
             if once("S2"):
                 add(SER, "json_to_state", CL_S2, inputs(cut="after event #%d" % k),
-                    "json_to_state raised %s: %s" % (type(ex).__name__, _short(str(ex), 200)))
+                    "json_to_state raised %s: %s" % (type(ex).__name__, _short(_no_ids(str(ex)), 200)))
             continue
         count("S3", name, si, k)
         diffs = _state_diff(env, live.state, restored)
         if diffs and once("S3"):
-            add(SER, "json_to_state", CL_S3, inputs(cut="after event #%d" % k), _short("; ".join(diffs), 600))
+            add(SER, "json_to_state", CL_S3, inputs(cut="after event #%d" % k), _short(_no_ids("; ".join(diffs)), 600))
         forks.append((k, restored, list(live.trace), list(live.counter)))
     live.finish()
     live_c = _canon_trace(live.trace)
@@ -1131,32 +1204,43 @@ def _check_scenario(env, sc, script, si, tier, add, count):
     # ---- A1/A2: idle time longer than the clean-up age before event k (k >= 1), and before every event
     ages = [_AGE] if tier != "thorough" else [_AGE, 3600.0]
     plans = [(k, age) for age in ages for k in range(1, n)] + [("every", _AGE)]
+    if not (reported & {"S1", "S2", "S3", "S4", "S4c"}) and (tier == "thorough" or sc["group"] in ("cleanup", "core_library")):
+        plans.append(("every+save", _AGE))   # both together (only where save/restore alone is fine)
     for k, age in plans:
         env.offset = env.timedelta(0)
         run = _Run(env, rails, script)
         bad_q = None
+        storable = True
         for i in range(n):
-            if (k == "every" and i >= 1) or i == k:
+            if (k in ("every", "every+save") and i >= 1) or i == k:
                 env.idle(age)
             run.step()
+            if k == "every+save" and storable and not run.dead and not isinstance(run.state, dict):
+                try:
+                    run.state = env.json_to_state(env.state_to_json(run.state))
+                except Exception:
+                    storable = False   # reported by S1 / S2
             if bad_q is None and not run.dead and not isinstance(run.state, dict) and base_q[i] is not None \
-                    and (k == "every" or i >= k):
+                    and (k in ("every", "every+save") or i >= k):
                 q = _queries(env, run.state, names)
                 if q != base_q[i]:
                     diff = ["%s: %r without idle time, %r with" % (key, base_q[i].get(key), q.get(key))
                             for key in sorted(set(q) | set(base_q[i])) if q.get(key) != base_q[i].get(key)]
-                    bad_q = "after event #%d: %s" % (i, "; ".join(diff))
+                    bad_q = _no_ids("after event #%d: %s" % (i, "; ".join(diff)))
         env.offset = env.timedelta(0)
         count("A1", name, si, (k, age))
         count("A2", name, si, (k, age))
         rc = _canon_trace(run.trace)
-        where = "%.0f s idle before %s" % (age, "every event" if k == "every" else "event #%d" % k)
-        if rc != base_c and once("A1"):
+        where = "%.0f s idle before %s" % (age, "every event" if k == "every" else "every event and the state saved and restored after "
+                                           "every event" if k == "every+save" else "event #%d" % k)
+        if not storable:
+            continue
+        if rc != base_c and once("A"):
             first = next(i for i in range(n) if rc[i] != base_c[i])
-            add(SM, "_clean_up_state", CL_A1, inputs(idle=where),
+            add(SM, "_clean_up_state", CL_AS if k == "every+save" else CL_A1, inputs(idle=where),
                 "without idle time: %s || with idle time: %s" % (_short(_show_trace(base_c, first), 420), _short(_show_trace(rc, first), 420)))
-        elif bad_q and once("A2"):
-            add(SM, "_clean_up_state", CL_A2, inputs(idle=where), _short(bad_q, 700))
+        elif rc == base_c and bad_q and once("A"):
+            add(SM, "_clean_up_state", CL_AS if k == "every+save" else CL_A2, inputs(idle=where), _short(bad_q, 700))
 
 
 def _random_scripts(sc, rng, count, max_len):
@@ -1201,11 +1285,12 @@ def native_checks(rng, tier):
                 scripts = list(sc["scripts"])
                 if tier == "thorough":
                     scripts += _random_scripts(sc, rng, 6, 8)
+                reported = set()   # at most one failure per oracle and program
                 for si, script in enumerate(scripts):
                     n_scripts += 1
                     try:
-                        _check_scenario(env, sc, script, si, tier, add, count)
-                    except Exception as ex:   # a defect of this harness, not of the code under contract
+                        _check_scenario(env, sc, script, si, tier, add, count, reported)
+                    except Exception as ex:   # a defect of this harness (or a program the tree under test cannot even load)
                         import traceback
                         add(SER, "C11_native", "the C11 native harness itself runs", "scenario=%s script=%d" % (sc["name"], si),
                             "harness error %s: %s" % (type(ex).__name__, _short(traceback.format_exc(), 600)))
